@@ -21,7 +21,7 @@ import (
 func init() {
 	register(&explore.Prop{
 		ID: "C19", Level: levelFE, Explorer: "E3 environment-answer enumerator",
-		Rule: "file-backed segments (small mixed; 257-doc three-block; 1025-doc two-doc-value-chunk) whose segment.Data reads go through a fault-injecting io.ReaderAt; warm-up prefix = every sequence of <=1 (quick) / <=2 (thorough) read operations on the small segment, one fewer on each larger one, drawn from a 19-operation menu (incl. three operations that step a long-lived postings / dictionary iterator) (decides which caches are warm); then for the next operation X the storage fails at EVERY read index of X, persistently (every later read fails) or transiently (only that read); then EVERY follow-up operation of the menu runs, with the objects X left behind and with fresh objects; " +
+		Rule: "file-backed segments (small mixed; 257-doc three-block; the small one with a 40 KiB FST of 2000 more terms; thorough also 1025-doc two-doc-value-chunk) whose segment.Data reads go through a fault-injecting io.ReaderAt; warm-up prefix = every sequence of <=1 (quick) / <=2 (thorough) read operations on the small segment, one fewer on each larger one, drawn from a 19-operation menu (incl. three operations that step a long-lived postings / dictionary iterator) (decides which caches are warm); then for the next operation X the storage fails at EVERY read index of X (on the 40 KiB-FST segment: the first and the last 32 reads of an operation with more than 64), persistently (every later read fails) or transiently (only that read); then EVERY follow-up operation of the menu runs, with the objects X left behind and with fresh objects; " +
 			"oracle: X returns an error (what it delivered before is a prefix of the correct result), or an empty result, or the complete correct result; after X and after every follow-up the FST-cache mutex is free (a held mutex would block every later lookup), nothing panics; after a transient fault, follow-ups through fresh objects return the correct result or an error; distinct = (segment, prefix, X, read index, fault kind); non-trivial = the injected fault was actually hit",
 		Assumptions: []string{"the injector is installed by reflection into the struct of bluge_segment_api v0.2.0 (pinned in go.sum); harness only, ice untouched", "fail model: ReadAt returns (0, error)", "blocking is detected by the invariant 'mutex free between calls' (VerifMutexFree), not by timeouts; the 300 s per-case watchdog is a backstop"},
 		Budget:      qBudget, Run: runC19,
@@ -411,6 +411,28 @@ func c19Segments(thorough bool) (names []string, images [][]byte, err error) {
 	if err := mk("257docs", blocks, 1025); err != nil {
 		return nil, nil, err
 	}
+	// the small segment again, with 2000 high-entropy 16-character terms more in field a of one
+	// document: the field's FST takes some 40 KiB (anything read in fixed-size pieces, or read ahead
+	// up to a limit, behaves differently here), and its dictionary has thousands of entries
+	{
+		bd := []model.Doc{gen.MixDoc(2, "f", 0), gen.MixDoc(2, "f", 1), gen.MixDoc(2, "f", 2), gen.MixDoc(2, "f", 3), gen.MixDoc(2, "f", 4), gen.MixDoc(2, "f", 5)}
+		bd[2] = append(bd[2], gen.MixDoc(9, "g", 2)[1])
+		bd[1] = append(bd[1], model.Field{N: "b", Len: 1, Terms: []model.Term{{T: "t1", Freq: 1}}, DV: true})
+		var ts []model.Term
+		x := uint32(19)
+		for k := 0; k < 2000; k++ {
+			t := make([]byte, 16)
+			for i := range t {
+				x = x*1664525 + 1013904223
+				t[i] = "0123456789abcdef"[(x>>24)%16]
+			}
+			ts = append(ts, model.Term{T: "h" + string(t), Freq: 1})
+		}
+		bd[3] = append(bd[3], model.Field{N: "a", Len: len(ts), Terms: ts})
+		if err := mk("bigdict", bd, 2); err != nil {
+			return nil, nil, err
+		}
+	}
 	if thorough {
 		big := dvcBatch(1025, 0)
 		for i := range big {
@@ -557,8 +579,20 @@ func runC19(c *explore.Ctx) {
 				before := ra.reads
 				runOp(x, st)
 				nReads := ra.reads - before
+				// on the big-dictionary segment an operation that reads every term's postings (the merge)
+				// has thousands of reads: there the first 32 and the last 32 of them fail, the rest not
+				var ris []int
+				for ri := 0; ri < nReads; ri++ {
+					if names[si] == "bigdict" && nReads > 64 && ri >= 32 && ri < nReads-32 {
+						continue
+					}
+					ris = append(ris, ri)
+				}
+				if len(ris) < nReads && c.Shard == 0 {
+					c.Add("read_indices_not_failed_on_bigdict", int64(2*(nReads-len(ris))))
+				}
 				for kind := 0; kind < 2; kind++ {
-					for ri := 0; ri < nReads; ri++ {
+					for _, ri := range ris {
 						my := idx
 						idx++
 						if !c.MineIdx(scope, my) {
